@@ -146,7 +146,7 @@ def mop(o):
 
 
 def mcase_to_coq(c):
-    cl = core.coq_list(["(%d, %d, %d)" % tuple(x) for x in c["classes"]])
+    cl = core.coq_list(["(%d, %d, %d)" % tuple(x) for x in (c["classes"] or [])])
     ops = core.coq_list([mop(o) for o in c["ops"] or []])
     res = core.coq_list([core.coq_list([core.z(x) for x in (r or [])]) for r in c["res"] or []])
     return "{| mc_classes := %s; mc_ops := %s; mc_res := %s |}" % (cl, ops, res)
